@@ -3,6 +3,7 @@ package interp
 import (
 	"bytes"
 	"fmt"
+	"testing/fstest"
 
 	"github.com/traefik/yaegi/stdlib"
 )
@@ -46,4 +47,18 @@ func main() { x := 1; defer show(x); x = 2 }`, "1\n")},
 import "fmt"
 func main() { m := map[string]int{"a": 1, "b": 2}; k := "a"; defer func() { fmt.Println(len(m)) }(); defer delete(m, k); k = "zz" }`, "1\n")},
 	)
+}
+
+// verifImportThenTypeError: main imports a source package whose init prints, and has a type error.
+func verifImportThenTypeError() (string, error) {
+	var out, errb bytes.Buffer
+	fsys := fstest.MapFS{
+		"_gopath/src/lib/lib.go": &fstest.MapFile{Data: []byte("package lib\nimport \"fmt\"\nfunc init() { fmt.Println(\"lib init ran\") }\nvar X = 1\n")},
+	}
+	i := New(Options{Stdout: &out, Stderr: &errb, GoPath: "_gopath", SourcecodeFilesystem: fsys})
+	if err := i.Use(stdlib.Symbols); err != nil {
+		return "", err
+	}
+	_, err := i.Eval("package main\nimport \"lib\"\nfunc main() { var s string = lib.X; println(s) }")
+	return out.String(), err
 }
